@@ -274,6 +274,8 @@ impl FileReader for IOFileReader {
 
         // store full path to file
         let uuid = uuid::Uuid::new_v4();
+        #[cfg(feature = "rva_verif")]
+        let uuid = riscv_analysis::verif::file_uuid(uuid, self.files.len());
         self.base_file.get_or_insert(uuid);
         if self
             .files
@@ -292,6 +294,8 @@ impl FileReader for IOFileReader {
 }
 
 fn main() {
+    #[cfg(feature = "rva_verif")]
+    riscv_analysis::verif::init_from_env();
     let args = Cli::parse();
     match args.command {
         Commands::Lint(lint) => {
@@ -376,6 +380,8 @@ fn main() {
             }
         }
     }
+    #[cfg(feature = "rva_verif")]
+    riscv_analysis::verif::finish_to_env();
 }
 
 #[cfg(test)]
